@@ -137,3 +137,55 @@ package core
 //@   assume-entry owed == ""
 //@   loop 1: invariant[C07.ix_load_purges_expired] owed == ""
 //@   ensures[C07.ix_load_purges_expired_exit] result == nil ==> owed == ""
+
+// ---- C20: limits ---------------------------------------------------------------------------
+// Functions handed to a breaker or throttle are assumed not to touch that breaker's / throttle's own fields.
+//@ funcval (*OutboundBreaker).Do.f
+//@   modifies allbut(F:core.OutboundBreaker.|F:core.Throttle.|F:core.ComboBreaker.|F:core.SimpleBreaker.)
+//@ funcval (*ComboBreaker).Do.f
+//@   modifies allbut(F:core.OutboundBreaker.|F:core.Throttle.|F:core.ComboBreaker.|F:core.SimpleBreaker.)
+//@ funcval (*SimpleBreaker).Do.f
+//@   modifies allbut(F:core.OutboundBreaker.|F:core.Throttle.|F:core.ComboBreaker.|F:core.SimpleBreaker.)
+//@ funcval (*SimpleBreaker).Status.probe
+//@   modifies allbut(F:core.OutboundBreaker.|F:core.Throttle.|F:core.ComboBreaker.|F:core.SimpleBreaker.)
+
+// Interface contract of Breaker.Do ("ran iff attempted"), assumed at interface call sites and
+// proved of each implementation below.
+//@ iface Breaker.Do
+//@   ghost-ensures attempted ==> calls(arg0) <= old(calls(arg0)) + 1
+//@   ghost-ensures !attempted ==> calls(arg0) == old(calls(arg0))
+//@   modifies calls(arg0), allbut(F:core.Throttle.)
+
+//@ func (*OutboundBreaker).Do
+//@   ensures[C20.ob_runs_iff_admitted]   result0 && f != nil ==> calls(f) == old(calls(f)) + 1
+//@   ensures[C20.ob_not_admitted_no_run] !result0 ==> calls(f) == old(calls(f))
+
+//@ func (*ComboBreaker).Do
+//@   ensures[C20.combo_runs_at_most_once] calls(f) <= old(calls(f)) + 1
+//@   ensures[C20.combo_not_attempted_no_run] !result0 ==> calls(f) == old(calls(f))
+
+//@ func (*SimpleBreaker).Do
+//@   ensures[C20.simple_runs_at_most_once] calls(f) <= old(calls(f)) + 1
+//@   ensures[C20.simple_not_attempted_no_run] !result0 ==> calls(f) == old(calls(f))
+
+//@ func (*Throttle).Submit
+//@   ensures[C20.submit_pending_restored] t.pending == old(t.pending)
+//@   ensures[C20.submit_runs_at_most_once] calls(f) <= old(calls(f)) + 1
+//@   ensures[C20.submit_overflow_no_run] old(t.pendingLimit < t.pending) && !old(t.disabled) ==> calls(f) == old(calls(f)) && result != nil
+//@   loop 1: invariant[C20.submit_loop] t.pending == old(t.pending) + 1 && calls(f) == old(calls(f))
+
+// Capacity gate: the permission capOK is granted only by AtCapacity() == false.
+//@ ghost capOK bool gate
+//@ ghost lastCount int
+//@ iface State.Count
+//@   ghost-ensures lastCount == result
+//@   also-modifies lastCount
+//@ func (*Location).AtCapacity
+//@   ensures[C20.atcapacity_exact] old(loc.control) != nil ==> result == (old(loc.control.MaxFacts) <= lastCount)
+//@   ghost-ensures !result ==> capOK
+//@   also-modifies capOK, lastCount
+//@ func (*Location).addFact
+//@   requires[C20.capacity_gate] capOK
+//@   assert[C20.capacity_gate_add] at "loc.state.Add(ctx, id, fact)": capOK
+//@ func (*Location).AddRule
+//@   assert[C20.capacity_gate_addrule] at "loc.state.Add(ctx, id, wrapper)": capOK
